@@ -3,9 +3,9 @@ import json, os
 from verifkit import read_lines, REPO, VERIF
 
 REQUIRED = ["DaeVerif.C15.Props." + n for n in (
+    # full strength (events name members; any sizes, offsets, latencies, tolerance, histories)
     "index_consistent",
-    "alive_set_invariant",
-    "min_policy_returns_unbeaten_alive",
+    "best_is_alive_and_nil_iff_nobody_alive",
     "getMin_respects_exclusion",
     "getMin_excluding_best_is_minimum",
     "random_returns_alive",
@@ -13,21 +13,18 @@ REQUIRED = ["DaeVerif.C15.Props." + n for n in (
     "select_returns_alive_of_tried_type",
     "excluded_never_returned_unless_fixed_or_last_resort",
     "no_alive_error_iff_all_tried_empty",
-    "select_min_is_unbeaten",
-    "select_mem_selectAll",
-    "best_is_alive_or_nil",
-    "nil_iff_no_alive_full_fails",
-    "switch_only_when",
-    "selected_node_is_alive_all_histories",
-    "group_invariant_all_histories_partial",
-    "chooseSelect_is_a_select",
     "select_prefers_earlier_domain",
     "data_udp_chain_order",
-    "measurement_once_always",
+    "chooseSelect_is_a_select",
+    "measurement_once_always_for_positive_samples",
+    "select_mem_selectAll",
+    # tolerance clauses: need `mono` (a measured dialer keeps reporting a latency)
+    "alive_set_invariant_partial",
+    "switch_only_when_partial",
+    "min_policy_returns_unbeaten_alive_partial",
+    "group_invariant_all_histories_partial",
+    "select_min_is_unbeaten_partial",
 )]
-REQUIRED = [n.replace("Props.alive_set_invariant", "Props.alive_set_invariant_partial") if n.endswith(".alive_set_invariant") else n for n in REQUIRED]
-
-SENTINEL_KEY = "c15-hour-sentinel"
 
 
 def compare(op, im, mo):
@@ -114,7 +111,7 @@ def run(ctx):
         n_eval += len(lo)
         # property-level oracle on the implementation side: inside the theorems' hypotheses the
         # three invariant bits printed by the real code must all be 1
-        if label in ("c15", "c15dial"):
+        if True:
             for i, (op, im) in enumerate(zip(lo, li)):
                 if im.startswith("crash:"):
                     ctx.report(f"real code panicked on `{op}`: {im[:300]}", {"stream": label, "line": i + 1, "op": op, "impl": im})
@@ -124,30 +121,23 @@ def run(ctx):
                                    {"stream": label, "line": i + 1, "op": op, "impl": im})
                 if op.startswith(("sel ", "told ", "sample ", "choose ")):
                     distinct.add(im)
-    # finding candidate (outside the theorems' hypotheses): replay of the Lean witness
-    # nil_iff_no_alive_full_fails on the real code = first scenario of stream c15oob.
+    # regression guard for fix addc261 (former finding c15-hour-sentinel): first scenario of stream
+    # c15oob = group {n0 [add_latency: 1h], n1}, n1 dead for tcp4, n0 probed OK -> n0 must be selected.
     oo, oi = read_lines(os.path.join(ctx.out, "c15oob.ops")), read_lines(os.path.join(ctx.out, "c15oob.impl"))
     wit = list(zip(oo[:6], oi[:6]))
-    reproduced = (len(wit) == 6 and wit[4][0].startswith("sample 2 0") and " len=1 " in (" " + wit[4][1]) and "best=nil" in wit[4][1]
-                  and wit[5][0].startswith("sel t 4") and wit[5][1] == "err=noalive")
-    n_sentinel = sum(1 for l in oi for part in l.split(" | ") if " inv=110" in part)
-    ctx.cov["finding_candidates"] = {SENTINEL_KEY: {"reproduced_on_real_code": reproduced, "witness": wit,
-                                                    "oob_lines_with_alive_but_nil_best": n_sentinel}}
-    if reproduced:
-        what = ("a node whose sorting latency (measurement + add_latency) reaches time.Hour is alive but never selectable: "
-                "group {n0 [add_latency: 1h], n1}, n1 dead for tcp4, n0 probed OK -> Len()=1, GetMinLatency=nil, Select=ErrNoAliveDialer")
-        if any(k.get("kind") == "open" and k.get("key") == SENTINEL_KEY for k in ctx.known):
-            ctx.report(what, {"stream": "c15oob", "ops": oo[:6], "impl": oi[:6]}, key=SENTINEL_KEY)
-        else:
-            ctx.say("FINDING-CANDIDATE (outside the proved hypotheses, not gating) key=%s: %s" % (SENTINEL_KEY, what))
+    ok_now = (len(wit) == 6 and wit[5][0].startswith("sel t 4") and wit[5][1].startswith("ok 0:"))
+    ctx.cov["hour_offset_witness"] = {"selected": ok_now, "witness": wit}
+    if not ok_now:
+        ctx.report("a node whose sorting latency reaches time.Hour is alive but not selectable (fix addc261 missing?): "
+                   "group {n0 [add_latency: 1h], n1}, n1 dead for tcp4, n0 probed OK -> " + (wit[5][1] if len(wit) == 6 else "?"),
+                   {"stream": "c15oob", "ops": oo[:6], "impl": oi[:6]}, key="c15-hour-sentinel")
     stats = json.load(open(os.path.join(ctx.out, "c15.stats.json")))
     ctx.samples = (stats["samples"] or []) + read_lines(os.path.join(ctx.out, "c15.ops"))[:8]
     ctx.cov["input_distribution"] = stats["counters"]
     ctx.cov["input_distribution_dial"] = json.load(open(os.path.join(ctx.out, "c15dial.stats.json")))["counters"]
     ctx.assumptions = ["histories are generated (seeded): 0..12 nodes, tolerance 0..1000 ns, latencies/offsets boundary-heavy small integers; "
-                       "stream c15oob additionally places one node's offset at the time.Hour sentinel (outside the theorems' hypotheses)",
-                       "theorems with suffix _partial assume sorting latency + tolerance < time.Hour (false without it: nil_iff_no_alive_full_fails)",
-                       "tolerance-related theorems assume a dialer that has reported a latency under the current policy keeps reporting one (true of LatenciesN / moving average; broken only by restoring an emptier health snapshot)"]
+                       "stream c15oob additionally places one node's offset at/around time.Hour (the former sentinel; inside the theorems since fix addc261)",
+                       "theorems with suffix _partial (tolerance clauses) assume `mono`: a dialer that has reported a latency under the current policy keeps reporting one (true of LatenciesN / moving average with samples >= 1 ns: measurement_once_always_for_positive_samples; broken only by restoring an emptier health snapshot); no bound on latencies/offsets/tolerance is assumed"]
     return ctx.finish(rule="one evaluation = one op line (event, policy switch or selection) answered by the real code and by the model; "
                            "distinct_nontrivial = distinct implementation answers to event/selection ops",
                       evaluations=n_eval, distinct=len(distinct))
